@@ -173,11 +173,12 @@ func vC06SrchStr(name string, rep, maxU, maxB int) *vC06Str {
 }
 
 // receiver representation in [RL,RH] (json bounds), at most N units (imported: at most B bytes);
-// search string in any representation, at most M units (imported: at most MB bytes)
+// search string in the first SR representations (ascii, unicode, imported unscanned, imported scanned), at
+// most M units (imported: at most MB bytes)
 func vC06SrchPair() (a, b *vC06Str) {
 	lo, hi := vBound("RL"), vBound("RH")
 	a = vC06SrchStr("s", lo+vChoice("s.rep", hi-lo+1), vBound("N"), vBound("B"))
-	b = vC06SrchStr("sep", vChoice("sep.rep", vC06NumReps), vBound("M"), vBound("MB"))
+	b = vC06SrchStr("sep", vChoice("sep.rep", vBound("SR")), vBound("M"), vBound("MB"))
 	return
 }
 
